@@ -782,6 +782,8 @@ func runAny(c *rig.Ctx, w *world, raw json.RawMessage, record bool) bool {
 	switch k.Kind {
 	case "url":
 		return runURL(c, rig.UnHex(k.Target), record)
+	case "gateway": // the composed model against the real chain (compose.go)
+		return runGatewayAny(c, theGwPool(), raw, record)
 	}
 	var cs Case
 	if err := json.Unmarshal(raw, &cs); err != nil {
@@ -818,6 +820,10 @@ func main() {
 			"term: one of 19 rows of the decision table (17 rows + requests whose RequestInfo does not resolve + requests whose resource is not valid UTF-8) on such a request. distinct = distinct canonical case; non-trivial = (url) the target has an escape, a query or a special byte; (forward) the target is not plain, or it has a query, special headers, a body, or the upstream sends special headers or a body; (term) always")
 		c.SetExtra("volatile_headers_canonicalised", volatileNotes)
 		c.SetExtra("never_generated", []string{"request headers Pragma, Expect, Content-Length/Transfer-Encoding other than the body writer's own, a second Host", "a Connection header naming Accept-Encoding, User-Agent, Content-Length, Authorization or the correlation header", "response header Trailer and trailers, Content-Encoding unless the client sent Accept-Encoding (net/http's transport would decode it)", "1xx upstream statuses other than the 101 of the upgrade case", "CONNECT, OPTIONS *, absolute-form targets, control bytes and spaces in the target (net/http answers 400 before any handler)"})
+		if os.Getenv("C04_GATEWAY_ONLY") != "" { // development aid: only the composed-model stream
+			runGatewayStream(c, theGwPool())
+			return
+		}
 		if c.Replay != "" {
 			var raw json.RawMessage
 			if err := c.LoadReplay(&raw); err != nil {
@@ -920,6 +926,10 @@ func main() {
 			c.Trace()
 			runUpgrade(c, w, up, true)
 			c.Note("upgrade (SPDY/WebSocket) tunnels: one exercised round trip, nothing proved (partial)")
+		}
+		// 5. whole configurations and request sequences against the composed model (compose.go)
+		if c.NFailures() < 8 {
+			runGatewayStream(c, theGwPool())
 		}
 		w.mu.Lock()
 		strays := w.strays
